@@ -23,6 +23,9 @@ enum Cause {
     DropStartFuture(usize),
     /// the task of an instant spawn is aborted before its k-th poll
     AbortInstantTask(usize),
+    /// the holder of an instant spawn's reference drains (or kills) it before the start-up task was ever polled
+    DrainBeforeFirstPoll,
+    KillBeforeFirstPoll,
 }
 
 #[derive(Clone, Copy, Debug, PartialEq, Eq)]
@@ -232,6 +235,13 @@ async fn run(sc: Sc) -> Outcome {
                     *stash.lock().unwrap() = Some(aref.get_cell());
                     // messages sent to an instantly spawned actor before it started
                     let _ = aref.cast(do_msg(3, vec![]));
+                    match sc.cause {
+                        Cause::DrainBeforeFirstPoll => {
+                            let _ = aref.drain();
+                        }
+                        Cause::KillBeforeFirstPoll => aref.kill(),
+                        _ => {}
+                    }
                     match outer.await {
                         Ok(Ok(h)) => spawn_ok = Some((aref, Some(h))),
                         Ok(Err(e)) => spawn_err = Some(format!("{e}")),
@@ -249,7 +259,7 @@ async fn run(sc: Sc) -> Outcome {
     let produced_running = x_events.iter().any(|e| e.cb == Cb::PostStart && e.kind == EvKind::Enter);
     // ---- a spawn that did produce a running actor: it must be fully functional, then clean up
     if let Some((r, h)) = spawn_ok.take() {
-        if !matches!(sc.cause, Cause::DropStartFuture(_) | Cause::AbortInstantTask(_) | Cause::KilledDuringStart | Cause::SupervisorDraining | Cause::SupervisorStopping) && !matches!(sc.cause, Cause::NameTaken) && matches!(sc.cause, Cause::PreStartErr | Cause::PreStartPanic) {
+        if !matches!(sc.cause, Cause::DropStartFuture(_) | Cause::AbortInstantTask(_) | Cause::KilledDuringStart | Cause::SupervisorDraining | Cause::SupervisorStopping | Cause::DrainBeforeFirstPoll | Cause::KillBeforeFirstPoll) && !matches!(sc.cause, Cause::NameTaken) && matches!(sc.cause, Cause::PreStartErr | Cause::PreStartPanic) {
             bad.push("pre_start failed but the spawn returned Ok".into());
         }
         if sc.cause == Cause::NameTaken {
@@ -454,6 +464,20 @@ pub fn plan(tier: &str) -> Plan {
     for sc in scs {
         units.push(Unit::explore(Job::new(format!("c08/{}", sc.name()), cfg.clone(), Some(bound), body(sc))));
     }
+    // requests that reach an instant spawn before its start-up task was ever polled
+    for kind in kinds {
+        for variant in [Variant::Instant, Variant::LinkedInstant] {
+            for cause in [Cause::DrainBeforeFirstPoll, Cause::KillBeforeFirstPoll] {
+                for effect in [Effect::None, Effect::JoinGroups] {
+                    if !thorough && effect != Effect::None && variant == Variant::LinkedInstant {
+                        continue;
+                    }
+                    let sc = Sc { kind, variant, cause, effect };
+                    units.push(Unit::explore(Job::new(format!("c08/{}", sc.name()), cfg.clone(), Some(bound), body(sc))));
+                }
+            }
+        }
+    }
     // an outsider joins / monitors / links the starting actor while its start fails: explored with a
     // decision point before every DashMap, lock and atomic operation of every task
     let s_kinds: &'static [vsched::PointKind] = &[vsched::PointKind::Atomic, vsched::PointKind::Lock, vsched::PointKind::Map, vsched::PointKind::Other];
@@ -497,7 +521,7 @@ pub fn plan(tier: &str) -> Plan {
     Plan {
         property: "C08",
         units,
-        rule: "scenario grid (Send/thread-local x spawn variant x failure cause x side effect performed by pre_start or by an outsider task (join / monitor / link from outside, explored with a decision point before every map, lock and atomic step)) plus cut-point enumeration (the future returned by spawn() dropped before its k-th poll, the task of an instant spawn aborted before its k-th poll, every k), each under a deviation-bounded DFS over task-level schedules of the real code; oracle at quiescence: no callback after the failure, status Stopped and late waits return, name reusable, no trace in pg, in any child set or in any supervisor's event log, queued calls fail instead of hanging, a name clash leaves the holder untouched; non-trivial = execution with >= 1 branching decision".into(),
+        rule: "scenario grid (Send/thread-local x spawn variant x failure cause (incl. a drain or kill that reaches an instant spawn before its start-up task was polled) x side effect performed by pre_start or by an outsider task (join / monitor / link from outside, explored with a decision point before every map, lock and atomic step)) plus cut-point enumeration (the future returned by spawn() dropped before its k-th poll, the task of an instant spawn aborted before its k-th poll, every k), each under a deviation-bounded DFS over task-level schedules of the real code; oracle at quiescence: no callback after the failure, status Stopped and late waits return, name reusable, no trace in pg, in any child set or in any supervisor's event log, queued calls fail instead of hanging, a name clash leaves the holder untouched; non-trivial = execution with >= 1 branching decision".into(),
         assumptions: vec![
             "task granularity".into(),
             "a cut that lands after the actor reached post_start is not a failed spawn: the actor is then required to work and to clean up normally".into(),
